@@ -92,6 +92,21 @@ PROPS["C05"] = {
     ],
 }
 
+PROPS["C06"] = {
+    "engine": "rwsim",
+    "level": "exploration",
+    "quick_runs": 3000,
+    "thorough_runs": 60000,
+    "quick_wall": 240,
+    "thorough_wall": 2400,
+    "params": {"delblock_p": 0.25, "insfn_p": 0.2},
+    "rule": "seeded scenarios with 0-4 functions (adjacent, interleaved with function-less code and data), edits at function "
+    "boundaries, whole-function deletion, deletion of entry blocks and of the promoted block, inserted functions; distinct = "
+    "(module, sessions) digest; non-trivial = at least one modification registered",
+    "real_vs_stub": RW_REAL,
+    "assumptions": ["which blocks are function entries is imported from the implementation at the start of each session (entry markers); what happens to them during the session is the model's"],
+}
+
 # (moved below)
 # engines built separately contribute their own entries
 import importlib as _il
